@@ -17,11 +17,13 @@ package main
 
 import (
 	"bytes"
+	"crypto/sha256"
 	"encoding/hex"
 	"flag"
 	"fmt"
 	"go/ast"
 	"go/parser"
+	"go/printer"
 	"go/token"
 	"math/big"
 	"os"
@@ -523,6 +525,81 @@ func withFallbacks(content, goldenPath string) string {
 	return content[:first[0]] + strings.Join(missing, "") + content[first[0]:]
 }
 
+// writeShapes fingerprints every function declaration of the library's non-test, non-instrumentation Go files:
+// key "<file>:<Receiver.>Name", value sha256 of the declaration printed without comments (so that comment and
+// layout edits do not count).  ./check compares them with tools/qf2coq/golden/shapes.json.
+func writeShapes(path string) error {
+	res := map[string]string{}
+	err := filepath.Walk(repo, func(p string, info os.FileInfo, err error) error {
+		if err != nil {
+			return err
+		}
+		rel, _ := filepath.Rel(repo, p)
+		if info.IsDir() {
+			if rel == ".git" || rel == "contrib" || rel == "cmd" || rel == "verifhook" || strings.HasPrefix(rel, ".") && rel != "." {
+				return filepath.SkipDir
+			}
+			return nil
+		}
+		if !strings.HasSuffix(p, ".go") || strings.HasSuffix(p, "_test.go") {
+			return nil
+		}
+		src, err := os.ReadFile(p)
+		if err != nil {
+			return err
+		}
+		if bytes.HasPrefix(src, []byte("//go:build verif")) {
+			return nil
+		}
+		fset := token.NewFileSet()
+		f, err := parser.ParseFile(fset, p, src, 0)
+		if err != nil {
+			return nil // a file that does not parse does not build either; the build reports it
+		}
+		for _, d := range f.Decls {
+			fd, ok := d.(*ast.FuncDecl)
+			if !ok {
+				continue
+			}
+			fd.Doc = nil
+			name := fd.Name.Name
+			if fd.Recv != nil && len(fd.Recv.List) > 0 {
+				name = recvName(fd.Recv.List[0].Type) + "." + name
+			}
+			var b bytes.Buffer
+			if err := printer.Fprint(&b, fset, fd); err != nil {
+				continue
+			}
+			h := sha256.Sum256(b.Bytes())
+			key := filepath.ToSlash(rel) + ":" + name
+			if _, dup := res[key]; dup { // init functions, build-tagged variants
+				key += "#2"
+			}
+			res[key] = hex.EncodeToString(h[:8])
+		}
+		return nil
+	})
+	if err != nil {
+		return err
+	}
+	keys := make([]string, 0, len(res))
+	for k := range res {
+		keys = append(keys, k)
+	}
+	sort.Strings(keys)
+	var b strings.Builder
+	b.WriteString("{\n")
+	for i, k := range keys {
+		fmt.Fprintf(&b, " %q: %q", k, res[k])
+		if i+1 < len(keys) {
+			b.WriteString(",")
+		}
+		b.WriteString("\n")
+	}
+	b.WriteString("}\n")
+	return os.WriteFile(path, []byte(b.String()), 0o644)
+}
+
 func writeIfChanged(path, content string) {
 	old, err := os.ReadFile(path)
 	if err == nil && bytes.Equal(old, []byte(content)) {
@@ -538,7 +615,15 @@ func main() {
 	flag.StringVar(&repo, "repo", "/repo", "qframe working tree")
 	golden := flag.String("golden", "", "directory with the golden copy of the generated files (fallback definitions)")
 	updateGolden := flag.String("update-golden", "", "write the generated files to this golden directory as well")
+	shapes := flag.String("shapes", "", "write the fingerprints of all function declarations of the library to this JSON file and exit")
 	flag.Parse()
+	if *shapes != "" {
+		if err := writeShapes(*shapes); err != nil {
+			fmt.Fprintln(os.Stderr, "qf2coq: "+err.Error())
+			os.Exit(3)
+		}
+		return
+	}
 	if *out == "" {
 		fmt.Fprintln(os.Stderr, "missing -out")
 		os.Exit(2)
